@@ -199,13 +199,21 @@ type gBase struct {
 func (b gBase) SignatureAlgorithms(ctx context.Context) ([]jose.SignatureAlgorithm, error) {
 	b.g.pass("SignatureAlgorithms", false)
 	defer b.g.pass("SignatureAlgorithms", true)
-	return b.Storage.SignatureAlgorithms(ctx)
+	algs, err := b.Storage.SignatureAlgorithms(ctx)
+	if e, ok := b.g.(emptier); ok && err == nil && e.empties("SignatureAlgorithms") {
+		return []jose.SignatureAlgorithm{}, nil // fault sequences: a storage that knows no algorithm right now
+	}
+	return algs, err
 }
 
 func (b gBase) KeySet(ctx context.Context) ([]op.Key, error) {
 	b.g.pass("KeySet", false)
 	defer b.g.pass("KeySet", true)
-	return b.Storage.KeySet(ctx)
+	keys, err := b.Storage.KeySet(ctx)
+	if e, ok := b.g.(emptier); ok && err == nil && e.empties("KeySet") {
+		return []op.Key{}, nil // fault sequences: a storage that has no key right now
+	}
+	return keys, err
 }
 
 func (b gBase) Health(ctx context.Context) error {
